@@ -19,4 +19,4 @@ LEVEL_TEXT = ("Deductive kernel: TradingEnv.step is executed symbolically with a
 EXPLANATION = LEVEL_TEXT
 NOT_DEDUCTIVE = ["latent iff stamped within `latency` of the previous timestep (Transmitter._create_partitions loop): bounded shell (C04/C08)",
                  "reset establishes the delay line of d null actions: bounded shell"]
-EXTRA_ASSUMPTIONS = ["ASSUMED contracts: TradingEnv._process_*_events, notify, IState.__call__, TrackRecord._checkpoint/__getitem__"]
+EXTRA_ASSUMPTIONS = ["ASSUMED contracts: TradingEnv._process_*_events, notify, IState.__call__"]
